@@ -28,3 +28,17 @@ CLAIMED = {
 }
 
 NOT_APPLICABLE = {}
+
+CLAIMED["C14"] = {
+    "engine": "E2 typestate / error-atom flow over interprocedural MIR",
+    "technique": "interprocedural typestate + error-value flow analysis over MIR (sink error followed as an atom through ?, From, or_else, matches); effect analysis of Editor methods",
+    "text": ("Decides four clauses for every path and every sink outcome: (P) on any path where the sink, the handler, a help callback "
+             "or the Cli::write closure reported a sink error, the public entry (Cli and Writer methods; every derive-generated "
+             "Help/processor impl in the corpus) returns Err carrying that error; (a) Cli.editor/input_generator are Some at every "
+             "exit; (b) after the edit buffer was handed out for in-place rewriting an editor reset precedes every exit, Ok or Err; "
+             "(c) per key, the editor mutations applied on an Err exit are none, a complete Ok sequence, or end in a reset. "
+             "Not decided: that later input is decoded normally (C04) and that a later Enter dispatches only typed text beyond (a)+(b)."),
+    "design_ref": "DESIGN.md §4 C14",
+    "note": TB + " User code is modelled as returning any value of its declared type; generated impls are analysed compositionally "
+                 "(a call to another generated impl is summarised by its declared outcomes, and that impl is an entry itself).",
+}
